@@ -1,6 +1,7 @@
 package regexp2
 
 import (
+	"math"
 	"sync"
 	"sync/atomic"
 	"time"
@@ -46,7 +47,8 @@ func (t fasttime) reached() bool {
 func makeDeadline(d time.Duration) fasttime {
 	// Increase the deadline since the clock we are reading may be
 	// just about to tick forwards.
-	end := fast.current.read() + durationToTicks(d+clockPeriod)
+	ticks := durationToTicks(addDuration(d, clockPeriod))
+	end := fast.current.read() + ticks
 
 	// Start or extend clock if necessary.
 	if end > fast.clockEnd.read() {
@@ -58,7 +60,7 @@ func makeDeadline(d time.Duration) fasttime {
 			// update fast.current
 			fast.current.write(durationToTicks(time.Since(fast.start)))
 			// recalculate our end value
-			end = fast.current.read() + durationToTicks(d+clockPeriod)
+			end = fast.current.read() + ticks
 		}
 		fast.mu.Unlock()
 		extendClock(end)
@@ -106,6 +108,15 @@ func stopClock() {
 		isRunning = fast.running
 		fast.mu.Unlock()
 	}
+}
+
+// addDuration returns a+b, saturating at the largest Duration instead of
+// wrapping around (a caller may pass a timeout close to math.MaxInt64).
+func addDuration(a, b time.Duration) time.Duration {
+	if b > 0 && a > math.MaxInt64-b {
+		return math.MaxInt64
+	}
+	return a + b
 }
 
 func durationToTicks(d time.Duration) fasttime {
